@@ -165,6 +165,10 @@ func runC15(env *Env, rc *RunCtx) {
 		}
 	}
 	N := base.Calls
+	if N > 500 {
+		rc.Rec.Skipped = "too-expensive"
+		return
+	}
 	sigma := et0.Recorded()
 	rc.Count("base_calls", N)
 	rc.Note(fmt.Sprintf("case %s d=%d w=%d N=%d outs=%v", rc.Rec.CaseHash, depth, width, N, base.Outs))
